@@ -35,20 +35,33 @@ let play_wire thr toks =
 
 (* regs=<hex id>/<hex key>:<hex nbt>+<hex key>:<hex nbt>...,... : the registries of the stock configuration
    handler in struct order; the model renders each registry with reg_write *)
-let regs_of_kvs kvs =
+let reg_entries_of_kvs kvs =
   List.map (fun t -> match String.split_on_char '/' t with
                      | [i; es] ->
                          let ents = List.map (fun e -> match String.split_on_char ':' e with
                                                        | [k; v] -> (bytes_of_hex k, bytes_of_hex v)
                                                        | _ -> failwith "bad registry entry") (split '+' es) in
-                         (bytes_of_hex i, reg_write ents)
+                         (bytes_of_hex i, ents)
                      | _ -> failwith "bad regs token")
     (split ',' (try List.assoc "regs" kvs with Not_found -> "-"))
+let regs_of_kvs kvs = List.map (fun (i, ents) -> (i, reg_write ents)) (reg_entries_of_kvs kvs)
+(* the bot's registries in the token format of the case line, as a digest *)
+let show_bregs regs =
+  let tok = if regs = [] then "-" else
+    String.concat "," (List.map (fun (rid, es) ->
+      hex_of_bytes rid ^ "/" ^ (if es = [] then "-" else
+        String.concat "+" (List.map (fun (k, v) -> hex_of_bytes k ^ ":" ^ hex_of_bytes v) es))) regs) in
+  Digest.to_hex (Digest.string tok)
 let bcfg_of kvs =
-  let known = List.map fst (regs_of_kvs kvs) in
+  (* the bot has the same registries (struct tags) as the server; reading a registry packet written from
+     the entries of the case line yields those entries *)
+  let ents = reg_entries_of_kvs kvs in
   { bc_name = bytes_of_hex (get kvs "name"); bc_claim = bytes_of_hex (get kvs "claim");
     bc_host = bytes_of_hex (get kvs "host"); bc_port = n_of_dec (get kvs "port");
-    bc_plugin = (fun _ _ -> None); bc_cookie = (fun _ -> None); bc_registry = (fun rid _ -> if List.mem rid known then Some true else None);
+    bc_plugin = (fun _ _ -> None); bc_cookie = (fun _ -> None);
+    bc_registry = (fun rid content -> match List.assoc_opt rid ents with
+                                      | Some es -> if content = reg_write es then Some (Some es) else Some None
+                                      | None -> None);
     bc_time = z_of_dec (try List.assoc "time" kvs with Not_found -> "0") }
 let scfg_of kvs =
   let chk = get kvs "chk" in
@@ -91,10 +104,11 @@ let () = iter_lines (fun line ->
       let (x, term) = finish offl bc sc (join_init bc) (sched_of (get kvs "sched")) in
       let b = x.x_b and s = x.x_s in
       let flag = (if term then "" else "!nonterminal") ^ (if seen_ok x.x_bseen && seen_ok x.x_sseen then "" else "!threshold-mismatch") in
-      Printf.printf "join %s%s %s bname=%s buuid=%s sname=%s suuid=%s sproto=%s c2s=%s s2c=%s pc=%s ps=%s\n"
+      Printf.printf "join %s%s %s bname=%s buuid=%s sname=%s suuid=%s sproto=%s bregs=%s c2s=%s s2c=%s pc=%s ps=%s\n"
         (show_bot b) flag (show_srv s)
         (hex_of_bytes b.b_name) (hex_of_bytes b.b_uuid) (hex_of_bytes s.s_name) (hex_of_bytes s.s_uuid)
-        (dec_of_z s.s_proto) (show_frames x.x_c2s_hist) (show_frames x.x_s2c_hist)
+        (dec_of_z s.s_proto) (show_bregs (match b.b_ph with BJoined -> b.b_regs | _ -> []))
+        (show_frames x.x_c2s_hist) (show_frames x.x_s2c_hist)
         (play_wire b.b_thr (split ',' (get kvs "pc"))) (play_wire s.s_thr (split ',' (get kvs "ps")))
   | "cut" :: toks ->
       (* one machine against the recorded peer that stops after nf frames *)
